@@ -12,7 +12,7 @@ say() { echo "$@" | tee -a "$log"; }
 cd "$d" || exit 2
 git checkout -- src 2>/dev/null
 git apply "$out/patch.diff" || { say "PATCH DOES NOT APPLY"; exit 2; }
-build() { for i in 1 2 3; do seedns "$d" ninja -C /seedwt/_build -j${JOBS:-8} >>"$log.build" 2>&1 && return 0; done; return 1; }
+build() { for i in 1 2 3; do seedns "$d" ninja -C /seedwt/_build -j${JOBS:-8} >/tmp/lead/confirm_build.log 2>&1 && return 0; done; return 1; }
 build || { say "BUILD FAILED with patch"; git checkout -- src; exit 2; }
 say "build with patch: ok"
 t=$(seedns "$d" ctest --test-dir /seedwt/_build -j6 --timeout 900 2>&1 | tail -15)
